@@ -588,8 +588,14 @@ func c10JWKSScenario(r *simcore.Run) {
 	if withCert {
 		if withChain {
 			imKey := simkeys.FixtureKey("ec384")
-			im, _ := simkeys.MintIntermediate(ca, caKey, imKey, epoch.Add(40*time.Hour), 3)
-			leaf, _ := simkeys.MintLeaf(im, imKey, key, epoch.Add(secs(notAfterS)), 2)
+			// usually the intermediate outlives the leaf; sometimes it is the other way round (a CA certificate about to be
+			// rolled): the chain, and with it the key, is valid until the first of them expires
+			imNotAfter, leafNotAfter := epoch.Add(40*time.Hour), epoch.Add(secs(notAfterS))
+			if s.Draw(3, "intermediate-expires-first") == 2 {
+				imNotAfter, leafNotAfter = epoch.Add(secs(notAfterS)), epoch.Add(40*time.Hour)
+			}
+			im, _ := simkeys.MintIntermediate(ca, caKey, imKey, imNotAfter, 3)
+			leaf, _ := simkeys.MintLeaf(im, imKey, key, leafNotAfter, 2)
 			jwk.Certificates = []*x509.Certificate{leaf, im}
 		} else {
 			leaf, _ := simkeys.MintLeaf(ca, caKey, key, epoch.Add(secs(notAfterS)), 2)
